@@ -120,6 +120,7 @@ type pathResult struct {
 	assumes    map[string][2]int
 	steps      int64
 	model      map[string]uint64
+	cuts       []string
 }
 
 type unsupported struct{ msg string }
@@ -154,7 +155,7 @@ func Explore(mainpkg *ssa.Package, sizes types.Sizes, fnName string, cfg *Config
 		cfg.MaxPaths = 200000
 	}
 	if cfg.MaxConcretize == 0 {
-		cfg.MaxConcretize = 300
+		cfg.MaxConcretize = 24
 	}
 	if cfg.MaxViolationsPerClass == 0 {
 		cfg.MaxViolationsPerClass = 3
@@ -195,6 +196,9 @@ func Explore(mainpkg *ssa.Package, sizes types.Sizes, fnName string, cfg *Config
 		}
 		if pr.incomplete != "" && pr.kind != "incomplete" {
 			res.Incomplete[pr.incomplete]++
+		}
+		for _, c := range pr.cuts {
+			res.Cuts[c]++
 		}
 		for _, r := range pr.reached {
 			res.Reached[r]++
@@ -388,6 +392,7 @@ func runOne(mainpkg *ssa.Package, sizes types.Sizes, fnName string, cfg *Config,
 		for _, r := range s.regions {
 			pr.regions = append(pr.regions, r.name)
 		}
+		pr.cuts = s.cuts
 		if len(pr.violations) > 0 && pr.kind == "ok" {
 			pr.kind = "violation"
 			pr.outcome = pr.violations[0].Label
